@@ -269,9 +269,14 @@ def check_b(ck, repo):
 
     full = [p for p in pp if p.stores]
     empty = [p for p in pp if not p.stores]
+    form = False
     if len(loops) == 1 and full and all(isinstance(p.ret, ast.AST) for p in pp):
         l = loops[0]
         oka = True
+        it0 = l.iter
+        # the two spellings this rule reads: `for i, est in enumerate(estimators_)` writing a column of the
+        # returned buffer, `for column, est in zip(buffer.T, estimators_)` writing through the view
+        form = (isinstance(it0, ast.Call) and src_of(it0.func) == "enumerate" and any(isinstance(s_, ast.Assign) and isinstance(s_.targets[0], ast.Subscript) and isinstance(s_.targets[0].slice, ast.Tuple) for s_ in ast.walk(l))) or (isinstance(it0, ast.Call) and src_of(it0.func) == "zip")
         for p in full:
             R = p.ret_text()
             shape = R.replace(" ", "")
@@ -304,7 +309,10 @@ def check_b(ck, repo):
         FLOAT64 = ("float", "numpy.float64", "'float64'", "numpy.double", "'float'", "'f8'", "'d'", "numpy.float_", "None")
         lossy = [d for d in dt if src_of(d).replace('"', "'") not in FLOAT64]
         ck.verdict(not lossy, "C17.b", pa, f"buffer dtype {[src_of(d) for d in dt] or 'float64 (default)'}", "the matrix stores each model's prediction unchanged", f"the matrix of individual predictions is allocated with dtype={src_of(lossy[0]) if lossy else ''}: predictions are cast (rounded or truncated) when stored, so predict_all/predict_sorted no longer hold the individual predictions and predict is not their mean")
-    ck.verdict(oka, "C17.b", pa, "container[:, i] = estimators_[i].predict(X) for every i", "column i of the matrix is estimator i's prediction for every row", "predict_all is not [one column per estimator, column i = estimators_[i].predict(X)]")
+    if not oka and not form:
+        ck.unknown("C17.b", pa, "container[:, i] = estimators_[i].predict(X) for every i", "predict_all does not fill the returned matrix column by column in a loop over the estimators in one of the spellings this rule reads (another buffer layout or counter is not followed)")
+    else:
+        ck.verdict(oka, "C17.b", pa, "container[:, i] = estimators_[i].predict(X) for every i", "column i of the matrix is estimator i's prediction for every row", "predict_all is not [one column per estimator, column i = estimators_[i].predict(X)]")
     Xp = pr.named_params[1]
     r = [p.ret_text() for p in paths(pr) if p.ret != RAISE]
     ck.verdict(r in ([f"self.predict_all({Xp}).mean(axis=1)"], [f"numpy.mean(self.predict_all({Xp}), axis=1)"], [f"self.predict_all({Xp}).mean(1)"], [f"numpy.mean(self.predict_all({Xp}), 1)"], [f"numpy.average(self.predict_all({Xp}), axis=1)"]), "C17.b", pr, f"return {r}", "predict = row-wise mean of the individual predictions", f"predict is not predict_all(X).mean(axis=1): {r}")
